@@ -112,6 +112,9 @@ func (fm *ForwardMessage) DecodeMsg(dc *msgp.Reader) error {
 		return msgp.ArrayError{Wanted: 3, Got: sz}
 	}
 
+	// options of an earlier message must not survive into this one
+	fm.Options = nil
+
 	if fm.Tag, err = dc.ReadString(); err != nil {
 		return msgp.WrapError(err, "Tag")
 	}
@@ -180,6 +183,9 @@ func (fm *ForwardMessage) UnmarshalMsg(bits []byte) ([]byte, error) {
 	if sz != 2 && sz != 3 {
 		return bits, msgp.ArrayError{Wanted: 3, Got: sz}
 	}
+
+	// options of an earlier message must not survive into this one
+	fm.Options = nil
 
 	if fm.Tag, bits, err = msgp.ReadStringBytes(bits); err != nil {
 		return bits, msgp.WrapError(err, "Tag")
